@@ -238,6 +238,8 @@ enum Op {
         hdr: Vec<u8>,
         caches: Vec<usize>,
         cb: Cb,
+        /// pass the path with the `.byteseries` extension (optional 7th token `ext=1`)
+        ext: bool,
     },
     Open {
         name: String,
@@ -382,6 +384,19 @@ fn parse_op_line(line: &str) -> Option<Line> {
             hdr: parse_hex(hdr.strip_prefix("hdr=")?)?,
             caches: parse_caches(caches.strip_prefix("caches=")?)?,
             cb: parse_cb(cb.strip_prefix("cb=")?)?,
+            ext: false,
+        },
+        ["new", name, p, hdr, caches, cb, ext] => Op::New {
+            name: parse_name(name)?,
+            p: parse_num(p.strip_prefix("p=")?)?,
+            hdr: parse_hex(hdr.strip_prefix("hdr=")?)?,
+            caches: parse_caches(caches.strip_prefix("caches=")?)?,
+            cb: parse_cb(cb.strip_prefix("cb=")?)?,
+            ext: match ext.strip_prefix("ext=")? {
+                "0" => false,
+                "1" => true,
+                _ => return None,
+            },
         },
         ["open", name, p, hdr, caches, cb, ext] => Op::Open {
             name: parse_name(name)?,
@@ -740,9 +755,21 @@ impl State {
         }
     }
 
-    fn op_new(&mut self, name: &str, p: usize, hdr: &[u8], caches: &[usize], cb: Cb) -> String {
+    fn op_new(
+        &mut self,
+        name: &str,
+        p: usize,
+        hdr: &[u8],
+        caches: &[usize],
+        cb: Cb,
+        ext: bool,
+    ) -> String {
         self.drop_handle();
-        let path = self.dir.join(name);
+        let path = if ext {
+            self.dir.join(format!("{name}.byteseries"))
+        } else {
+            self.dir.join(name)
+        };
         let hdr = hdr.to_vec();
         let res = watched(PLAIN, || {
             let b = ByteSeries::builder()
@@ -988,7 +1015,8 @@ impl State {
                 hdr,
                 caches,
                 cb,
-            } => self.op_new(name, *p, hdr, caches, *cb),
+                ext,
+            } => self.op_new(name, *p, hdr, caches, *cb, *ext),
             Op::Open {
                 name,
                 p,
